@@ -194,6 +194,20 @@ macro_rules! define_hasher {
             }
         }
 
+        /// Verification hooks: observe the chaining value and tweak, overwrite the byte count.
+        #[cfg(cryptocorrosion_verif)]
+        impl<N> $name<N>
+        where
+            N: Unsigned + ArrayLength<u8> + NonZero + Default,
+        {
+            pub fn verif_get_state(&self) -> (GenericArray<u8, $state_bytes>, (u64, u64)) {
+                (*self.state.x.as_byte_array(), self.state.t)
+            }
+            pub fn verif_set_byte_count(&mut self, n: u64) {
+                self.state.t.0 = n;
+            }
+        }
+
         impl<N> Default for $name<N>
         where
             N: Unsigned + ArrayLength<u8> + NonZero + Default,
